@@ -422,6 +422,7 @@ class StmtMixin:
             m.pc.append(z3.Implies(z3.Not(cond), z3.And(eb)))
         m.written = a.written | b.written
         m.written_locals = a.written_locals | b.written_locals
+        m.log_untracked = a.log_untracked | b.log_untracked
         for k, v in b.written_at.items():
             m.written_at.setdefault(k, [])
             m.written_at[k] = m.written_at[k] + [r for r in v if all(r.get_id() != q.get_id() for q in m.written_at[k])]
